@@ -390,7 +390,7 @@ func handleFlagsAliases() {
 		viper.Set("max-concurrent-assets", viper.GetInt("ca"))
 	}
 
-	if viper.GetInt("msr") != 20 && viper.GetInt("min-space-required") == 20 {
-		viper.Set("min-space-required", viper.GetInt("msr"))
+	if viper.GetFloat64("msr") != 0 && viper.GetFloat64("min-space-required") == 0 {
+		viper.Set("min-space-required", viper.GetFloat64("msr"))
 	}
 }
